@@ -83,7 +83,8 @@ def run(ctx):
     simple = check.pmap(conserve.simple_models_job, [{"seed": ctx.seed * 1000 + k} for k in range(ctx.pick(60, 800))], chunksize=4)
     ctx.cov["recorded_random"] += len(simple)
     validate(ctx, simple, "simple")
-    env = [{"seed": ctx.seed * 1000 + k, "model": "cdm", "direction": ("parallel", "serial")[k % 2]} for k in range(ctx.pick(30, 400))]
+    env = [{"seed": ctx.seed * 1000 + k, "model": "cdm", "pattern": k % 4, "direction": ("parallel", "serial")[(k // 4) % 2],
+            "dense": bool((k // 8) % 2)} for k in range(ctx.pick(48, 400))]
     env += [{"seed": ctx.seed * 1000 + k, "model": "persistence"} for k in range(ctx.pick(40, 600))]
     et = check.pmap(conserve.envelope_job, env, chunksize=4)
     ctx.cov["recorded_random"] += len(et)
